@@ -1,7 +1,8 @@
 """Check configuration for C03 (loaded by bin/props.py)."""
-from props_common import STD_ASSUME
+from props_common import STD_ASSUME, KNOBS_ENGINES, KNOBS_ASSUME
 
 CFG = {
+    "knobs": KNOBS_ENGINES,
     "pkg": "banyand/internal/verif/props/c03",
     "level": "exploration",
     "level_text": ("seeded exploration on a real standalone node in a fake-clock bubble: bursts of acknowledged batches (each its own memory part), a fixed set of queries answered before any maintenance, "
@@ -17,5 +18,5 @@ CFG = {
         "real": ["banyand/internal/sidx (ConvertToMemPart, IntroduceMemPart, Flush, IntroduceFlushed, Merge of arbitrary subsets, IntroduceMerged, StreamingQuery, QuerySync)", "banyand/measure and banyand/stream: introducer, flusher, merger, gc, snapshots, query", "banyand/internal/storage", "liaison front-end services", "banyand/query + pkg/query"],
         "stub": ["metadata registry (simmeta)", "gRPC transport", "clock (testing/synctest)"],
     },
-    "assumptions": STD_ASSUME,
+    "assumptions": STD_ASSUME + [KNOBS_ASSUME],
 }
